@@ -70,7 +70,7 @@ Tuples(t) ==
            n == Len(sc)
            one == UNION {{[i \in 1 .. n |-> IF i = k THEN v ELSE Default(sc[i])] : v \in Dom(sc[k])} : k \in 1 .. n}
            all == one \cup {[i \in 1 .. n |-> Extreme(sc[i])]} IN
-       {Patch(t, f) : f \in {g \in all : ~(sc = <<R>> /\ g[1] = <<>>)}}
+       {Patch(t, f) : f \in {g \in all : ~(sc = <<Rst>> /\ g[1] = <<>>)}}
 
 \* RDATA encodings that break a structural rule the crate enforces (C10): <<type, bytes>>
 BadEncodings ==
